@@ -1,8 +1,1301 @@
-//! stub - under construction
+//! Engine `inctree` (C11): including is pasting, and files are found where documented
+//! (DESIGN.md 5.2).
+//!
+//! System: avra_lib::builder::build_file(main, paths), real code, in-process, cwd set to a
+//! directory that is no directory of the tree. Reference model: textual paste of the tree with
+//! `.exit` truncation and `.includepath` lines blanked, assembled by build_str of the same tree
+//! (C11 is relational: bugs of the pure core cancel). Faults: lookup and read path of every file.
+
 use crate::common::*;
-use serde_json::Value;
-pub const RULE: &str = "";
-pub const ASSUMPTIONS: &[&str] = &[];
-pub fn worker(_cfg: &WorkerCfg, _emit: &mut dyn FnMut(Violation)) -> Stats { Stats::default() }
-pub fn replay(_s: &Value) -> Result<Option<Violation>, String> { Err("not built".into()) }
-pub fn shrink(_s: &Value) -> Vec<Value> { vec![] }
+use crate::incmodel::{self, basename, parse_include, Flat, World};
+use crate::proggen::{self, Node};
+use crate::rng::{fnv, mix, Rng};
+use crate::simlibc::{Call, Event, SimState};
+use serde::{Deserialize, Serialize};
+use serde_json::{json, Value};
+use std::collections::{BTreeMap, BTreeSet};
+use std::path::PathBuf;
+
+pub const RULE: &str = "Scenario g is drawn from seed mix(VERIF_SEED, g): a logical program (instructions, labels, data, .equ/.set/.def/.undef, #define with .ifdef/.ifndef/.if/.elif/.else, macros, .device, segments, .org, messages; about a third made to fail) is split into a tree of 1-8 files, depth <= 4, cut only between balanced blocks (also inside conditional branches), and each include is given one of the documented locations: path as written (relative to cwd or absolute), directory of the including file or of an ancestor, a caller-supplied directory, an .includepath directory (absolute, or relative to the file containing the directive, which may itself have been found through a search directory; the directive sits before the include, at the top of the file or at the top of an ancestor); .exit with dead lines after it in included files and in main; one file included several times. The result of build_file(tree) is compared with build_str(paste(tree)). Then, inside the call sequence of a fault-free profile run: the file missing, vanishing between stat and open, stat/open/read failures, short reads, read caps 1/3/64, EINTR, a non-UTF-8 byte (quick: one seeded fault per scenario and pairs; thorough: additionally every call x every kind for a share of scenarios), plus re-runs with one used directory taken out of its documented place. Non-trivial: the tree has at least one include that is actually opened; distinct by (tree shape, location-kind vector, fired-rule list, program hash).";
+
+pub const ASSUMPTIONS: &[&str] = &[
+    "the flat side of the comparison is assembled by the same tree's build_str: C11 is a relational property, defects of the pure core cancel and are not this check's business",
+    "not generated because the statement leaves them undefined: conditionals or macro definitions spanning a file boundary, a same-named directory shadowing a file, two files of the same name in different search directories, an .includepath of a child relied on by its parent after return, includes inside macro bodies",
+    "messages are compared by their (unique) texts in order always, and with line numbers mapped to the including file's numbering when they have the form '<kind>: <text> in line: <n>'; error texts are not compared (both sides must fail)",
+    "under faults: Err is acceptable, a panic is counted but not judged here, Ok implies equality with the fault-free result; short reads and read caps must not change the result; a missing file that the fault-free build opens must fail the build with an error naming the include as written",
+    "tree and flat side run under the same simulated hash seed (hash-order dependence is C17's matter)",
+];
+
+#[derive(Serialize, Deserialize, Clone, Debug)]
+pub struct Scenario {
+    pub engine: String,
+    /// path below the scratch root -> text ("$R" in a text stands for the scratch root)
+    pub files: BTreeMap<String, String>,
+    pub cwd: String,
+    /// argument of build_file ("$R/.." absolute, otherwise relative to cwd)
+    pub main: String,
+    /// scratch-relative path of the main file (for the paste model)
+    pub main_file: String,
+    pub paths: Vec<String>,
+    /// (includer file, child file, location kind) for statistics; kinds: w a p P c i I (see place())
+    pub edges: Vec<(String, String, String)>,
+    pub rules: Vec<RuleSpec>,
+    pub read_cap: usize,
+    /// file removed from the disk before the run
+    pub missing: Option<String>,
+    /// (file, byte offset): byte replaced by 0xFF on the disk
+    pub nonutf8: Option<(String, usize)>,
+    pub hash_seed: u64,
+    pub intent: String,
+    pub config: String,
+}
+
+// ---------------------------------------------------------------------------------------------
+// outcome of a build, comparable
+// ---------------------------------------------------------------------------------------------
+
+#[derive(Serialize, Deserialize, Clone, Debug, PartialEq, Eq)]
+pub enum Outcome {
+    Built { code: Vec<u8>, eeprom: Vec<u8>, sizes: (u32, u32, u32, u32), messages: Vec<String> },
+    Err(String),
+    Panic(String),
+}
+
+impl Outcome {
+    pub fn from(r: Result<Result<avra_lib::builder::BuildResult, String>, String>) -> Outcome {
+        match r {
+            Ok(Ok(b)) => Outcome::Built { code: b.code, eeprom: b.eeprom, sizes: (b.flash_size, b.eeprom_size, b.ram_size, b.ram_filling), messages: b.messages },
+            Ok(Err(e)) => Outcome::Err(e),
+            Err(p) => Outcome::Panic(p),
+        }
+    }
+    pub fn short(&self) -> String {
+        match self {
+            Outcome::Built { code, eeprom, sizes, messages } => format!("Built(code {} B #{:x}, eeprom {} B #{:x}, sizes {:?}, {} messages)", code.len(), fnv(code), eeprom.len(), fnv(eeprom), sizes, messages.len()),
+            Outcome::Err(e) => format!("Err({})", e.chars().take(160).collect::<String>()),
+            Outcome::Panic(e) => format!("Panic({})", e.chars().take(160).collect::<String>()),
+        }
+    }
+    pub fn fails(&self) -> bool {
+        !matches!(self, Outcome::Built { .. })
+    }
+}
+
+// ---------------------------------------------------------------------------------------------
+// workload: split a program into a tree
+// ---------------------------------------------------------------------------------------------
+
+struct TreeGen<'a> {
+    r: &'a mut Rng,
+    /// (dir, name, parent index, lines)
+    files: Vec<(String, String, Option<usize>, Vec<String>)>,
+    prepend: Vec<Vec<String>>,
+    edges: Vec<(usize, usize, String)>,
+    caller_dirs: Vec<String>,
+    used_caller: BTreeSet<usize>,
+    cwd: String,
+    max_files: usize,
+    ip_n: usize,
+    twice: Option<usize>,
+    twice_uses: usize,
+    labels: Vec<String>,
+}
+
+fn rel_from(from_dir: &str, to: &str) -> String {
+    // relative path from directory `from_dir` to `to` (both scratch-relative, no "." or "..")
+    let f: Vec<&str> = from_dir.split('/').filter(|s| !s.is_empty()).collect();
+    let t: Vec<&str> = to.split('/').filter(|s| !s.is_empty()).collect();
+    let mut c = 0;
+    while c < f.len() && c < t.len() && f[c] == t[c] {
+        c += 1;
+    }
+    let mut parts: Vec<String> = (c..f.len()).map(|_| "..".to_string()).collect();
+    parts.extend(t[c..].iter().map(|s| s.to_string()));
+    if parts.is_empty() {
+        ".".to_string()
+    } else {
+        parts.join("/")
+    }
+}
+
+impl<'a> TreeGen<'a> {
+    fn new_file(&mut self, parent: usize) -> usize {
+        let i = self.files.len();
+        let ext = ["inc", "inc", "asm", "h"][self.r.usize(4)];
+        self.files.push((String::new(), format!("f{}.{}", i, ext), Some(parent), vec![]));
+        self.prepend.push(vec![]);
+        i
+    }
+    fn ancestors(&self, f: usize) -> Vec<usize> {
+        let mut v = vec![];
+        let mut c = self.files[f].2;
+        while let Some(p) = c {
+            v.push(p);
+            c = self.files[p].2;
+        }
+        v
+    }
+    /// Decide where `child` lives and how `parent` names it. Returns (name as written, lines to
+    /// put directly before the include line).
+    fn place(&mut self, child: usize, parent: usize) -> (String, Vec<String>) {
+        let name = self.files[child].1.clone();
+        let pdir = self.files[parent].0.clone();
+        let sub = if self.r.chance(1, 3) { Some(format!("s{}", self.r.below(3))) } else { None };
+        let dot = self.r.chance(1, 8);
+        let with_sub = |d: &str, sub: &Option<String>| -> (String, String) {
+            match sub {
+                Some(s) => (format!("{}/{}", d, s), format!("{}{}/{}", if dot { "./" } else { "" }, s, name)),
+                None => (d.to_string(), format!("{}{}", if dot { "./" } else { "" }, name)),
+            }
+        };
+        let kind = self.r.below(12);
+        match kind {
+            // path as written, relative to the cwd
+            0 | 1 => {
+                let (dir, written) = with_sub(&self.cwd.clone(), &sub);
+                self.files[child].0 = dir;
+                self.edges.push((parent, child, "w".into()));
+                (written, vec![])
+            }
+            // path as written, absolute
+            2 => {
+                let dir = format!("abs place/d{}", self.r.below(2));
+                self.files[child].0 = dir.clone();
+                self.edges.push((parent, child, "a".into()));
+                (format!("$R/{}/{}", dir, name), vec![])
+            }
+            // directory of the including file
+            3 | 4 | 5 => {
+                let (dir, written) = with_sub(&pdir, &sub);
+                self.files[child].0 = dir;
+                self.edges.push((parent, child, "p".into()));
+                (written, vec![])
+            }
+            // directory of an ancestor of the including file
+            6 => {
+                let anc = self.ancestors(parent);
+                if anc.is_empty() {
+                    self.files[child].0 = pdir;
+                    self.edges.push((parent, child, "p".into()));
+                    return (name, vec![]);
+                }
+                let a = anc[self.r.usize(anc.len())];
+                let adir = self.files[a].0.clone();
+                let kind = if adir == pdir { "p" } else { "P" };
+                self.files[child].0 = adir;
+                self.edges.push((parent, child, kind.into()));
+                (name, vec![])
+            }
+            // caller-supplied directory
+            7 | 8 => {
+                let k = self.r.usize(self.caller_dirs.len());
+                self.used_caller.insert(k);
+                let (dir, written) = with_sub(&self.caller_dirs[k].clone(), &sub);
+                self.files[child].0 = dir;
+                self.edges.push((parent, child, "c".into()));
+                (written, vec![])
+            }
+            // .includepath directory
+            _ => {
+                self.ip_n += 1;
+                let ipdir = match self.r.below(3) {
+                    0 => format!("ip{}", self.ip_n),
+                    1 => format!("{}/ipsub{}", if pdir.is_empty() { "proj".to_string() } else { pdir.clone() }, self.ip_n),
+                    _ => format!("deep/er/ip{}", self.ip_n),
+                };
+                let (dir, written) = with_sub(&ipdir, &sub);
+                self.files[child].0 = dir;
+                // where does the directive go: before the include, top of this file, top of an ancestor
+                let anc = self.ancestors(parent);
+                let holder = match self.r.below(4) {
+                    0 if !anc.is_empty() => anc[self.r.usize(anc.len())],
+                    _ => parent,
+                };
+                let hdir = self.files[holder].0.clone();
+                let absolute = self.r.chance(1, 3);
+                let arg = if absolute { format!("$R/{}", ipdir) } else { rel_from(&hdir, &ipdir) };
+                let arg = match self.r.below(8) {
+                    0 => format!("{}/", arg),
+                    1 => format!("{}/.", arg),
+                    2 if !absolute => format!("./{}", arg),
+                    _ => arg,
+                };
+                let line = format!(".includepath \"{}\"", arg);
+                let kind = if absolute { "I" } else { "i" };
+                let kind = if holder != parent { format!("{}^", kind) } else { kind.to_string() };
+                self.edges.push((parent, child, kind));
+                if holder == parent && self.r.chance(1, 2) {
+                    (written, vec![line])
+                } else {
+                    self.prepend[holder].push(line);
+                    (written, vec![])
+                }
+            }
+        }
+    }
+
+    fn process(&mut self, nodes: Vec<Node>, file: usize, depth: u32) -> Vec<Node> {
+        let mut out: Vec<Node> = vec![];
+        let mut i = 0;
+        while i < nodes.len() {
+            // one leaf file is included from several places
+            if self.twice_uses < 3 && self.r.chance(1, 14) {
+                let t = match self.twice {
+                    Some(t) => t,
+                    None => {
+                        let t = self.files.len();
+                        let k = self.r.usize(self.caller_dirs.len());
+                        self.used_caller.insert(k);
+                        let body = vec!["    inc r4".to_string(), format!("    ldi r20, {}", self.r.below(200)), "    nop ; shared leaf".to_string()];
+                        self.files.push((self.caller_dirs[k].clone(), format!("twice{}.inc", t), None, body));
+                        self.prepend.push(vec![]);
+                        self.twice = Some(t);
+                        t
+                    }
+                };
+                self.twice_uses += 1;
+                self.edges.push((file, t, "c2".into()));
+                out.push(Node::Lines(vec![format!(".include \"{}\"", self.files[t].1)]));
+            }
+            let can_cut = depth < 4 && self.files.len() < self.max_files;
+            if can_cut && self.r.chance(1, 4) {
+                let len = 1 + self.r.usize((nodes.len() - i).min(5));
+                let child_nodes: Vec<Node> = nodes[i..i + len].to_vec();
+                let child = self.new_file(file);
+                // the child's directory must be known before its own children are placed
+                let (written, pre) = self.place(child, file);
+                let child_nodes = self.process(child_nodes, child, depth + 1);
+                let mut lines = vec![];
+                proggen::flatten_nodes(&child_nodes, &mut lines);
+                if self.r.chance(1, 4) {
+                    // .exit ends this file only; what follows would break or change the build
+                    lines.push(if self.r.chance(1, 2) { ".exit".to_string() } else { "    .exit".to_string() });
+                    if let Some(l) = self.labels.first() {
+                        lines.push(format!("{}:", l));
+                    }
+                    lines.push("    ldi r31, 0xEE ; never assembled".to_string());
+                    if self.r.chance(1, 2) {
+                        lines.push("%% not even parsed %%".to_string());
+                    }
+                }
+                self.files[child].3 = lines;
+                let mut l = pre;
+                let ind = if self.r.chance(1, 4) { "  " } else { "" };
+                l.push(format!("{}.include \"{}\"", ind, written));
+                out.push(Node::Lines(l));
+                i += len;
+                continue;
+            }
+            match nodes[i].clone() {
+                Node::Cond { head, then, els } if self.r.chance(1, 2) => {
+                    let then = self.process(then, file, depth);
+                    let els = els.map(|(e, b)| (e, self.process(b, file, depth)));
+                    out.push(Node::Cond { head, then, els });
+                }
+                n => out.push(n),
+            }
+            i += 1;
+        }
+        out
+    }
+}
+
+fn collect_labels(nodes: &[Node], out: &mut Vec<String>) {
+    let mut lines = vec![];
+    proggen::flatten_nodes(nodes, &mut lines);
+    for l in lines {
+        let t = l.trim();
+        if let Some(p) = t.find(':') {
+            let name = &t[..p];
+            if !name.is_empty() && name.chars().all(|c| c.is_ascii_alphanumeric() || c == '_') && !name.chars().next().unwrap().is_ascii_digit() {
+                out.push(name.to_string());
+            }
+        }
+    }
+}
+
+pub fn scenario_shape(_tier: &str, base_seed: u64, g: u64) -> Scenario {
+    let seed = mix(base_seed, &[0xC11, g]);
+    let mut r = Rng::new(seed);
+    let pool = proggen::Pool::new(&mut r);
+    let mut o = proggen::GenOpts::default();
+    o.min_blocks = 5;
+    o.max_blocks = 22;
+    o.msg_tag = format!("t{}m", g % 1000);
+    if r.chance(3, 10) {
+        o.fail = Some(proggen::FAIL_KINDS[r.usize(proggen::FAIL_KINDS.len())].to_string());
+    }
+    let prog = proggen::gen(&mut r, &pool, &o);
+    let mut labels = vec![];
+    collect_labels(&prog.nodes, &mut labels);
+    let main_dir = ["proj", "proj/src", "top dir"][r.usize(3)].to_string();
+    let main_name = ["main.asm", "Main Prog.asm", "m"][r.usize(3)].to_string();
+    // mostly a directory that is no directory of the tree; sometimes deep below the root (so
+    // relative paths carry several leading ".."), sometimes the main file's own directory
+    let cwd = match r.below(20) {
+        0..=11 => "cwd_here".to_string(),
+        12..=16 => "w/x/cwd_here".to_string(),
+        _ => main_dir.clone(),
+    };
+    let ncaller = r.range(1, 2) as usize;
+    let caller_dirs: Vec<String> = (0..ncaller).map(|k| if k == 0 { "lib1".to_string() } else { "lib two/inc".to_string() }).collect();
+    let max_files = [1usize, 2, 3, 4, 5, 6, 8, 8][r.usize(8)];
+    let mut tg = TreeGen {
+        r: &mut r,
+        files: vec![(main_dir.clone(), main_name.clone(), None, vec![])],
+        prepend: vec![vec![]],
+        edges: vec![],
+        caller_dirs: caller_dirs.clone(),
+        used_caller: BTreeSet::new(),
+        cwd: cwd.clone(),
+        max_files,
+        ip_n: 0,
+        twice: None,
+        twice_uses: 0,
+        labels,
+    };
+    let nodes = tg.process(prog.nodes.clone(), 0, 0);
+    let mut lines = vec![];
+    proggen::flatten_nodes(&nodes, &mut lines);
+    if tg.r.chance(1, 6) {
+        lines.push(".exit".to_string());
+        lines.push("    ldi r31, 0xEE ; never assembled".to_string());
+        lines.push("%% not even parsed %%".to_string());
+    }
+    tg.files[0].3 = lines;
+    let mut files = BTreeMap::new();
+    for (i, (dir, name, _, lines)) in tg.files.iter().enumerate() {
+        let mut all = tg.prepend[i].clone();
+        all.extend(lines.iter().cloned());
+        let mut text = all.join("\n");
+        text.push('\n');
+        files.insert(format!("{}/{}", dir, name), text);
+    }
+    let edges: Vec<(String, String, String)> = tg.edges.iter().map(|(p, c, k)| (format!("{}/{}", tg.files[*p].0, tg.files[*p].1), format!("{}/{}", tg.files[*c].0, tg.files[*c].1), k.clone())).collect();
+    let main_file = format!("{}/{}", main_dir, main_name);
+    let abs_main = tg.r.chance(1, 3);
+    let main = if abs_main { format!("$R/{}", main_file) } else { rel_from(&cwd, &main_file) };
+    // caller paths: those used, sometimes an unused extra, absolute or relative to the cwd
+    let mut paths = vec![];
+    for (k, d) in caller_dirs.iter().enumerate() {
+        if tg.used_caller.contains(&k) || tg.r.chance(1, 2) {
+            paths.push(if tg.r.chance(1, 2) { format!("$R/{}", d) } else { rel_from(&cwd, d) });
+        }
+    }
+    if tg.r.chance(1, 5) {
+        paths.push("$R/no such dir".to_string());
+    }
+    let cfgs = ["free", "free", "missing", "enum", "enum", "enum", "pair", "cap", "nonutf8", "enum"];
+    let config = cfgs[tg.r.usize(cfgs.len())].to_string();
+    Scenario {
+        engine: "inctree".into(),
+        files,
+        cwd,
+        main,
+        main_file,
+        paths,
+        edges,
+        rules: vec![],
+        read_cap: 0,
+        missing: None,
+        nonutf8: None,
+        hash_seed: seed,
+        intent: prog.intent,
+        config,
+    }
+}
+
+// ---------------------------------------------------------------------------------------------
+// execution
+// ---------------------------------------------------------------------------------------------
+
+pub struct Disk {
+    pub scratch: Scratch,
+    pub root: PathBuf,
+}
+
+impl Disk {
+    pub fn new(tag: &str) -> Result<Disk, String> {
+        let scratch = Scratch::new(tag).map_err(|e| e.to_string())?;
+        let root = scratch.path("root");
+        std::fs::create_dir_all(&root).map_err(|e| e.to_string())?;
+        Ok(Disk { scratch, root })
+    }
+    pub fn root_str(&self) -> String {
+        self.root.to_string_lossy().into_owned()
+    }
+    pub fn materialise(&self, sc: &Scenario) -> Result<(), String> {
+        let _ = std::env::set_current_dir("/");
+        let _ = std::fs::remove_dir_all(&self.root);
+        std::fs::create_dir_all(self.root.join(&sc.cwd)).map_err(|e| e.to_string())?;
+        let rs = self.root_str();
+        for (p, t) in &sc.files {
+            if sc.missing.as_deref() == Some(p.as_str()) {
+                continue;
+            }
+            let fp = self.root.join(p);
+            if let Some(d) = fp.parent() {
+                std::fs::create_dir_all(d).map_err(|e| e.to_string())?;
+            }
+            let mut bytes = t.replace("$R", &rs).into_bytes();
+            if let Some((f, off)) = &sc.nonutf8 {
+                if f == p && !bytes.is_empty() {
+                    let o = (*off).min(bytes.len() - 1);
+                    bytes[o] = 0xFF;
+                }
+            }
+            std::fs::write(&fp, bytes).map_err(|e| format!("write {}: {}", p, e))?;
+        }
+        // caller directories exist even when empty
+        for d in &sc.paths {
+            if !d.contains("no such dir") {
+                let p = d.replace("$R", &rs);
+                let p = if p.starts_with('/') { PathBuf::from(p) } else { self.root.join(&sc.cwd).join(p) };
+                let _ = std::fs::create_dir_all(p);
+            }
+        }
+        std::env::set_current_dir(self.root.join(&sc.cwd)).map_err(|e| format!("chdir: {}", e))
+    }
+}
+
+pub struct TreeRun {
+    pub outcome: Outcome,
+    pub state: SimState,
+}
+
+pub fn run_tree(disk: &Disk, sc: &Scenario, budget: u64) -> Result<TreeRun, String> {
+    let rs = disk.root_str();
+    let main = PathBuf::from(sc.main.replace("$R", &rs));
+    let paths: std::collections::BTreeSet<PathBuf> = sc.paths.iter().map(|p| PathBuf::from(p.replace("$R", &rs))).collect();
+    let mut st = SimState::new(&rs);
+    st.rules = rules_to_sim(&sc.rules)?;
+    st.read_cap = sc.read_cap;
+    st.hash_seed = sc.hash_seed;
+    st.budget = budget;
+    let run = run_simulated(st, move || avra_lib::builder::build_file(main, paths).map_err(|e| e.to_string()));
+    Ok(TreeRun { outcome: Outcome::from(run.result), state: run.state })
+}
+
+pub fn run_flat(disk: &Disk, text: &str, hash_seed: u64) -> Outcome {
+    let mut st = SimState::new(&disk.root_str());
+    st.hash_seed = hash_seed;
+    let t = text.to_string();
+    let run = run_simulated(st, move || avra_lib::builder::build_str(&t).map_err(|e| e.to_string()));
+    Outcome::from(run.result)
+}
+
+// ---------------------------------------------------------------------------------------------
+// oracle
+// ---------------------------------------------------------------------------------------------
+
+fn split_message(m: &str) -> Option<(String, usize)> {
+    // "<kind>: <text> in line: <n>"
+    let idx = m.rfind(" in line: ")?;
+    let n: usize = m[idx + 10..].trim().parse().ok()?;
+    Some((m[..idx].to_string(), n))
+}
+
+/// Compare the tree build with the flat build. None = equivalent.
+pub fn compare(tree: &Outcome, flat: &Outcome, map: &[(String, usize)]) -> Option<String> {
+    match (tree, flat) {
+        (Outcome::Built { code: c1, eeprom: e1, sizes: s1, messages: m1 }, Outcome::Built { code: c2, eeprom: e2, sizes: s2, messages: m2 }) => {
+            if c1 != c2 {
+                let at = c1.iter().zip(c2.iter()).position(|(a, b)| a != b).unwrap_or(c1.len().min(c2.len()));
+                return Some(format!("flash images differ: tree {} bytes, flat {} bytes, first difference at byte {}", c1.len(), c2.len(), at));
+            }
+            if e1 != e2 {
+                return Some(format!("eeprom images differ: tree {} bytes, flat {} bytes", e1.len(), e2.len()));
+            }
+            if s1 != s2 {
+                return Some(format!("sizes differ: tree (flash, eeprom, ram, ram_filling) = {:?}, flat = {:?}", s1, s2));
+            }
+            if m1.len() != m2.len() {
+                return Some(format!("message count differs: tree {:?}, flat {:?}", m1, m2));
+            }
+            for (a, b) in m1.iter().zip(m2.iter()) {
+                match (split_message(a), split_message(b)) {
+                    (Some((ta, la)), Some((tb, lb))) => {
+                        if ta != tb {
+                            return Some(format!("messages differ or are out of order: tree {:?}, flat {:?}", a, b));
+                        }
+                        // the flat line number, mapped to the numbering of the file it came from
+                        match map.get(lb.wrapping_sub(1)) {
+                            Some((_, fl)) if *fl == la => {}
+                            Some((f, fl)) => return Some(format!("message line number: tree says line {}, the pasted line {} is line {} of {}: {:?}", la, lb, fl, f, a)),
+                            None => return Some(format!("message line number {} is outside the pasted text: {:?}", lb, b)),
+                        }
+                    }
+                    // another message format (e.g. with file names): compare the texts loosely
+                    _ => {
+                        let key = |s: &str| -> String { s.split('"').next().unwrap_or("").to_string() };
+                        let _ = key;
+                        // unique message texts: the generated tag must appear in both
+                        let tag_a: Vec<&str> = a.split(|c: char| !c.is_ascii_alphanumeric()).filter(|w| w.len() >= 3 && w.chars().any(|c| c.is_ascii_digit()) && w.contains('m')).collect();
+                        if !tag_a.iter().any(|w| b.contains(w)) {
+                            return Some(format!("messages differ or are out of order: tree {:?}, flat {:?}", a, b));
+                        }
+                    }
+                }
+            }
+            None
+        }
+        (Outcome::Built { .. }, f) => Some(format!("tree builds, pasted text does not: {}", f.short())),
+        (t, Outcome::Built { .. }) => Some(format!("pasted text builds, tree does not: {}", t.short())),
+        _ => None, // both fail
+    }
+}
+
+fn mk_violation(sc: &Scenario, class: &str, expected: &str, observed: Value, seed: u64) -> Violation {
+    let kinds: BTreeSet<String> = sc.edges.iter().map(|e| e.2.clone()).collect();
+    Violation {
+        property: "C11".into(),
+        engine: "inctree".into(),
+        class: class.into(),
+        signature: format!("class={} faults={} kinds={}", class, if sc.rules.is_empty() && sc.read_cap == 0 && sc.missing.is_none() && sc.nonutf8.is_none() { "none".to_string() } else { format!("{}{}{}{}", if sc.missing.is_some() { "missing " } else { "" }, if sc.nonutf8.is_some() { "nonutf8 " } else { "" }, if sc.read_cap > 0 { "cap " } else { "" }, sc.rules.iter().map(|r| r.kind.clone()).collect::<BTreeSet<_>>().into_iter().collect::<Vec<_>>().join("+")) }, kinds.into_iter().collect::<Vec<_>>().join("")),
+        seed,
+        expected: expected.into(),
+        observed,
+        scenario: serde_json::to_value(sc).unwrap(),
+    }
+}
+
+/// Was `file` (scratch-relative) opened successfully in this trace?
+fn opened_in(trace: &[Event], file: &str) -> bool {
+    let base = basename(file);
+    trace.iter().any(|e| e.call == Call::Open && e.ret >= 0 && basename(&e.path) == base)
+}
+
+pub fn present_files(sc: &Scenario) -> BTreeMap<String, String> {
+    let mut f = sc.files.clone();
+    if let Some(m) = &sc.missing {
+        f.remove(m);
+    }
+    f
+}
+
+/// The fault-free oracle for one world (files, cwd, caller directories): the tree build against
+/// the pasted text. Handles the two cases in which the model does not predict "found":
+/// an include that exists only outside every documented place (the tool may find it anyway or
+/// must fail naming it) and an include for which no file exists (both sides fail exactly when
+/// the directive is reached, and the tree's error names the include as written).
+pub fn judge_world(sc: &Scenario, tree: &Outcome, flat_out: &Outcome, flat: &Flat, root: &str, trace: &[Event], seed: u64) -> Option<Violation> {
+    if matches!(flat_out, Outcome::Panic(_)) {
+        return None; // the pasted text panics in isolation: a C16 matter, excluded and counted
+    }
+    let tail = trace_tail(trace, 16);
+    // the last clause of the property: a file found nowhere fails the build with an error naming it
+    if let Outcome::Err(fe) = flat_out {
+        if let Some(pos) = fe.find(incmodel::MARKER) {
+            let rest = &fe[pos + incmodel::MARKER.len()..];
+            if let Some(name) = flat.unresolvable.iter().find(|n| rest.starts_with(&n.replace('"', "'"))) {
+                let shown = name.replace("$R", root);
+                return match tree {
+                    Outcome::Err(e) if e.contains(&shown) => None,
+                    // an earlier include outside every documented place may legitimately be
+                    // the one that is reported
+                    Outcome::Err(e) if flat.undocumented.iter().any(|n| e.contains(&n.replace("$R", root))) => None,
+                    Outcome::Err(e) => Some(mk_violation(sc, "not-found-error-does-not-name-the-file", "a file found nowhere fails the build with an error naming it", json!({"include_as_written": shown, "error": e, "trace_tail": tail}), seed)),
+                    Outcome::Panic(p) => Some(mk_violation(sc, "not-found-include-panics", "a file found nowhere fails the build with an error naming it (not a panic)", json!({"include_as_written": shown, "panic": p, "trace_tail": tail}), seed)),
+                    o => Some(mk_violation(sc, "not-found-include-ignored", "a file found nowhere fails the build with an error naming it", json!({"include_as_written": shown, "outcome": o.short(), "trace_tail": tail}), seed)),
+                };
+            }
+        }
+    }
+    match compare(tree, flat_out, &flat.map) {
+        None => None,
+        Some(why) => {
+            // an include outside every documented place: failing with an error that names it is fine
+            if let Outcome::Err(e) = tree {
+                if flat.undocumented.iter().any(|n| e.contains(&n.replace("$R", root))) {
+                    return None;
+                }
+            }
+            Some(mk_violation(
+                sc,
+                "tree-differs-from-pasted-text",
+                "build_file(tree) has exactly the effect of build_str(pasted text): same images, sizes, messages (line numbers mapped), or both fail",
+                json!({"difference": why, "tree": tree.short(), "pasted": flat_out.short(), "pasted_text": flat.text, "includes_outside_documented_places": flat.undocumented, "trace_tail": tail}),
+                seed,
+            ))
+        }
+    }
+}
+
+/// Judge a run with injected faults against the fault-free tree outcome of the same world.
+pub fn judge_faulted(sc: &Scenario, run: &TreeRun, fault_free: &Outcome, seed: u64) -> Option<Violation> {
+    let tail = trace_tail(&run.state.trace, 14);
+    if run.state.budget_hit {
+        return Some(mk_violation(sc, "no-progress", "the build ends within 4 x (fault-free call count) + 64 intercepted calls", json!({"trace_tail": tail}), seed));
+    }
+    let only_short = sc.rules.iter().all(|s| s.action == "limit" || s.action == "shortby");
+    let must_equal = only_short && sc.nonutf8.is_none();
+    match &run.outcome {
+        Outcome::Built { .. } => {
+            if &run.outcome != fault_free {
+                return Some(mk_violation(
+                    sc,
+                    "ok-but-different-under-fault",
+                    "under a fault, Ok implies the fault-free result (never an image built from part of a file or from a different file)",
+                    json!({"faulted": run.outcome.short(), "fault_free": fault_free.short(), "trace_tail": tail}),
+                    seed,
+                ));
+            }
+            None
+        }
+        o => {
+            if must_equal && !fault_free.fails() {
+                return Some(mk_violation(
+                    sc,
+                    "short-read-changes-result",
+                    "a short read is legal kernel behaviour: the result must equal the fault-free result",
+                    json!({"faulted": o.short(), "fault_free": fault_free.short(), "trace_tail": tail}),
+                    seed,
+                ));
+            }
+            None
+        }
+    }
+}
+
+// ---------------------------------------------------------------------------------------------
+// worker
+// ---------------------------------------------------------------------------------------------
+
+const READ_FAULTS: &[&str] = &["EIO", "EISDIR", "short-to-1", "short-to-3", "short-to-64", "EINTR", "EINTRx2"];
+const OPEN_ERR: &[&str] = &["ENOENT", "EACCES", "EMFILE", "ENFILE", "EIO", "ELOOP", "ENAMETOOLONG", "ENOMEM"];
+const STAT_ERR: &[&str] = &["EACCES", "EIO", "ELOOP", "ENAMETOOLONG"];
+
+pub fn faults_for_event(trace: &[Event], i: usize) -> Vec<Vec<RuleSpec>> {
+    let e = &trace[i];
+    let nth = trace[..i].iter().filter(|x| x.call == e.call && x.path == e.path).count() as i64;
+    let t = e.path.as_str();
+    let mut v = vec![];
+    match e.call {
+        Call::Stat => {
+            for er in STAT_ERR {
+                v.push(vec![RuleSpec::errno("stat", t, nth, er, "stat-fail")]);
+            }
+        }
+        Call::Open => {
+            for er in OPEN_ERR {
+                v.push(vec![RuleSpec::errno("open", t, nth, er, if *er == "ENOENT" { "vanish" } else { "open-fail" })]);
+            }
+        }
+        Call::Read => {
+            for a in READ_FAULTS {
+                v.push(match *a {
+                    "short-to-1" => vec![RuleSpec::limit("read", t, nth, 1, "read-short")],
+                    "short-to-3" => vec![RuleSpec::limit("read", t, nth, 3, "read-short")],
+                    "short-to-64" => vec![RuleSpec::limit("read", t, nth, 64, "read-short")],
+                    "EINTR" => vec![RuleSpec::errno("read", t, nth, "EINTR", "read-eintr")],
+                    "EINTRx2" => (0..2).map(|k| RuleSpec::errno("read", t, nth + k, "EINTR", "read-eintr")).collect(),
+                    er => vec![RuleSpec::errno("read", t, nth, er, "read-fail")],
+                });
+            }
+        }
+        Call::Fstat => v.push(vec![RuleSpec::errno("fstat", t, nth, "EIO", "fstat-fail")]),
+        Call::Lseek => v.push(vec![RuleSpec::errno("lseek", t, nth, "ESPIPE", "lseek-fail")]),
+        Call::Close => v.push(vec![RuleSpec::errno("close", t, nth, "EIO", "close-fail")]),
+        _ => {}
+    }
+    v
+}
+
+/// 4 x the fault-free call count + 64; a read cap of c legitimately turns a read of n bytes
+/// into n/c calls, which is added before the factor.
+pub fn step_budget(profile: &[Event], read_cap: usize) -> u64 {
+    let mut calls = profile.len() as u64;
+    if read_cap > 0 {
+        let bytes: i64 = profile.iter().filter(|e| e.call == Call::Read && e.ret > 0).map(|e| e.ret).sum();
+        calls += bytes as u64 / read_cap as u64 + 1;
+    }
+    4 * calls + 64
+}
+
+fn faultable(trace: &[Event]) -> Vec<usize> {
+    trace.iter().enumerate().filter(|(_, e)| matches!(e.call, Call::Stat | Call::Open | Call::Read | Call::Fstat | Call::Lseek | Call::Close) && !(e.call == Call::Stat && e.ret != 0)).map(|(i, _)| i).collect()
+}
+
+fn tree_hash(sc: &Scenario, fired: &[String]) -> u64 {
+    let shape: Vec<(usize, &String)> = sc.edges.iter().map(|(p, _, k)| (p.len(), k)).collect();
+    fnv(format!("{:?}|{:?}|{}|{:?}|{:?}|{}|{}", shape, fired, sc.read_cap, sc.missing, sc.nonutf8, fnv(format!("{:?}", sc.files).as_bytes()), sc.paths.len()).as_bytes())
+}
+
+fn ident_tokens(line: &str) -> Vec<String> {
+    line.split(|c: char| !(c.is_ascii_alphanumeric() || c == '_')).filter(|w| !w.is_empty() && !w.chars().next().unwrap().is_ascii_digit()).map(|w| w.to_lowercase()).collect()
+}
+
+/// names defined in a file (labels, equ, def, set, define, macro), lower-cased
+fn defined_names(text: &str) -> BTreeSet<String> {
+    let mut s = BTreeSet::new();
+    for l in text.lines() {
+        let t = l.trim();
+        if let Some(p) = t.find(':') {
+            let n = &t[..p];
+            if !n.is_empty() && n.chars().all(|c| c.is_ascii_alphanumeric() || c == '_') {
+                s.insert(n.to_lowercase());
+            }
+        }
+        for d in [".equ ", ".set ", ".def ", ".macro ", "#define ", ".define "] {
+            if let Some(rest) = t.strip_prefix(d) {
+                if let Some(n) = ident_tokens(rest).first() {
+                    s.insert(n.clone());
+                }
+            }
+        }
+    }
+    s
+}
+
+fn used_names(text: &str) -> BTreeSet<String> {
+    let mut s = BTreeSet::new();
+    for l in text.lines() {
+        let t = l.trim();
+        let body = match t.find(':') {
+            Some(p) if t[..p].chars().all(|c| c.is_ascii_alphanumeric() || c == '_') => &t[p + 1..],
+            _ => t,
+        };
+        for d in [".equ ", ".set ", ".def ", ".macro ", "#define ", ".define "] {
+            if body.trim_start().starts_with(d) {
+                // the defined name itself is not a use; the right-hand side is
+                if let Some(eq) = body.find('=') {
+                    s.extend(ident_tokens(&body[eq + 1..]));
+                }
+            }
+        }
+        if !body.trim_start().starts_with('.') && !body.trim_start().starts_with('#') {
+            s.extend(ident_tokens(body));
+        } else if body.trim_start().starts_with(".if") || body.trim_start().starts_with("#if") || body.trim_start().starts_with(".d") {
+            s.extend(ident_tokens(body).into_iter().skip(1));
+        }
+    }
+    s
+}
+
+struct Ctx<'a> {
+    disk: &'a Disk,
+    stats: &'a mut Stats,
+    emit: &'a mut dyn FnMut(Violation),
+    found: usize,
+}
+
+/// One world, fault-free: paste, build both sides, judge. Returns what the faulted runs need.
+struct Base {
+    flat: Flat,
+    flat_out: Outcome,
+    tree: TreeRun,
+}
+
+fn run_world(cx: &mut Ctx, sc: &Scenario, seed: u64, judge: bool) -> Option<Base> {
+    let files = present_files(sc);
+    let world = World { files: &files, cwd: &sc.cwd, caller: &sc.paths };
+    let pasted = if files.contains_key(&sc.main_file) {
+        incmodel::paste(&world, &sc.main_file)
+    } else {
+        // the main file itself is found nowhere: the build fails naming it
+        Ok(Flat { text: format!(".error \"{}{}\"\n", incmodel::MARKER, sc.main), map: vec![(sc.main_file.clone(), 1)], undocumented: vec![], unresolvable: vec![sc.main.clone()], resolved: vec![] })
+    };
+    let flat = match pasted {
+        Ok(f) => f,
+        Err(e) => {
+            cx.stats.harness_errors.push(e);
+            return None;
+        }
+    };
+    let mut clean = sc.clone();
+    clean.rules.clear();
+    clean.read_cap = 0;
+    clean.nonutf8 = None;
+    if let Err(e) = cx.disk.materialise(&clean) {
+        cx.stats.harness_errors.push(e);
+        return None;
+    }
+    let rs = cx.disk.root_str();
+    let flat_out = run_flat(cx.disk, &flat.text.replace("$R", &rs), sc.hash_seed);
+    let tree = match run_tree(cx.disk, &clean, u64::MAX) {
+        Ok(t) => t,
+        Err(e) => {
+            cx.stats.harness_errors.push(e);
+            return None;
+        }
+    };
+    cx.stats.runs += 1;
+    cx.stats.fault_free_runs += 1;
+    cx.stats.steps += tree.state.steps;
+    if judge {
+        if let Some(v) = judge_world(&clean, &tree.outcome, &flat_out, &flat, &rs, &tree.state.trace, seed) {
+            cx.found += 1;
+            (cx.emit)(v);
+        }
+    }
+    Some(Base { flat, flat_out, tree })
+}
+
+fn run_faulted(cx: &mut Ctx, sc: &Scenario, base: &Base, seed: u64, g: u64) -> u64 {
+    let profile = &base.tree.state.trace;
+    let fault_free = &base.tree.outcome;
+    if sc.nonutf8.is_some() {
+        if let Err(e) = cx.disk.materialise(sc) {
+            cx.stats.harness_errors.push(e);
+            return 0;
+        }
+    }
+    let budget = step_budget(profile, sc.read_cap);
+    let run = match run_tree(cx.disk, sc, budget) {
+        Ok(r) => r,
+        Err(e) => {
+            cx.stats.harness_errors.push(e);
+            return 0;
+        }
+    };
+    if sc.nonutf8.is_some() {
+        let mut clean = sc.clone();
+        clean.nonutf8 = None;
+        let _ = cx.disk.materialise(&clean);
+    }
+    cx.stats.runs += 1;
+    cx.stats.steps += run.state.steps;
+    let mut fired: Vec<String> = vec![];
+    for (k, n) in fired_kinds(&run.state, &sc.rules) {
+        for _ in 0..n {
+            cx.stats.fired(&k);
+        }
+    }
+    for (r, s) in run.state.rules.iter().zip(sc.rules.iter()) {
+        if r.fired > 0 {
+            fired.push(s.short());
+        }
+    }
+    if let Some((f, _)) = &sc.nonutf8 {
+        if opened_in(&run.state.trace, f) {
+            cx.stats.fired("non-utf8");
+            fired.push(format!("nonutf8:{}", basename(f)));
+        }
+    }
+    if sc.read_cap > 0 && run.state.trace.iter().any(|e| e.call == Call::Read && e.ret > 0 && e.ret < e.req) {
+        cx.stats.fired("read-cap");
+        fired.push(format!("cap{}", sc.read_cap));
+    }
+    if !fired.is_empty() {
+        cx.stats.runs_with_fired_fault += 1;
+        cx.stats.distinct_nontrivial.insert(tree_hash(sc, &fired));
+    }
+    let depth_of = |path: &str| -> usize {
+        let mut d = 0;
+        let mut cur = basename(path).to_string();
+        while let Some((p, _, _)) = sc.edges.iter().find(|(_, c, _)| basename(c) == cur) {
+            d += 1;
+            cur = basename(p).to_string();
+            if d > 10 {
+                break;
+            }
+        }
+        d
+    };
+    cx.stats.probe("fault_fired_on_a_file_at_depth_2_or_more", run.state.trace.iter().any(|e| e.rule >= 0 && depth_of(&e.path) >= 2));
+    cx.stats.probe("build_failed_under_fault", run.outcome.fails() && !fault_free.fails());
+    cx.stats.probe("build_rode_through_benign_fault", !run.outcome.fails() && !fired.is_empty());
+    if matches!(run.outcome, Outcome::Panic(_)) && !fired.is_empty() && !matches!(fault_free, Outcome::Panic(_)) {
+        cx.stats.panics_under_fault += 1;
+    }
+    // determinism: identical to the profile up to the first interfered event
+    if sc.nonutf8.is_none() && sc.read_cap == 0 {
+        let a: Vec<String> = profile.iter().map(event_line).collect();
+        let b: Vec<String> = run.state.trace.iter().map(event_line).collect();
+        let first = run.state.trace.iter().position(|e| e.rule != -1).unwrap_or(b.len());
+        let n = first.min(a.len()).min(b.len());
+        if a[..n] != b[..n] {
+            cx.stats.harness_errors.push(format!("determinism: faulted trace diverges from its profile before the first fault (g={})", g));
+        }
+        cx.stats.count("profile_prefix_checks", 1);
+    }
+    if cx.stats.samples.len() < 3 && !fired.is_empty() && g % 5 == 0 {
+        cx.stats.samples.push(json!({"scenario": sc, "outcome": run.outcome.short(), "fault_free": fault_free.short(), "fired": fired, "trace": run.state.trace.iter().map(event_line).collect::<Vec<_>>()}));
+    }
+    if let Some(v) = judge_faulted(sc, &run, fault_free, seed) {
+        cx.found += 1;
+        (cx.emit)(v);
+    }
+    trace_digest(&run.state.trace) ^ fnv(run.outcome.short().replace(&cx.disk.root_str(), "$R").as_bytes())
+}
+
+pub fn worker(cfg: &WorkerCfg, emit: &mut dyn FnMut(Violation)) -> Stats {
+    let mut stats = Stats::default();
+    let disk = match Disk::new(&format!("inctree-w{:02}", cfg.worker)) {
+        Ok(d) => d,
+        Err(e) => {
+            stats.harness_errors.push(e);
+            return stats;
+        }
+    };
+    let start = now_secs();
+    let total = cfg.digest_only.unwrap_or(cfg.total);
+    let mut g = cfg.worker;
+    let mut cx = Ctx { disk: &disk, stats: &mut stats, emit, found: 0 };
+    while g < total {
+        if cfg.digest_only.is_none() && now_secs() - start > cfg.deadline_secs {
+            cx.stats.count("stopped_by_deadline", 1);
+            break;
+        }
+        let seed = mix(cfg.base_seed, &[0xC11, g]);
+        let mut r = Rng::new(seed ^ 0xFA17);
+        let sc = scenario_shape(&cfg.tier, cfg.base_seed, g);
+        cx.stats.first_seed.get_or_insert(seed);
+        cx.stats.last_seed = Some(seed);
+        let base = match run_world(&mut cx, &sc, seed, true) {
+            Some(b) => b,
+            None => break,
+        };
+        let rs = disk.root_str();
+        let mut digest = trace_digest(&base.tree.state.trace) ^ fnv(base.tree.outcome.short().replace(&rs, "$R").as_bytes()) ^ fnv(base.flat_out.short().replace(&rs, "$R").as_bytes()).rotate_left(7);
+        let profile = base.tree.state.trace.clone();
+        let opened: Vec<&(String, String, String)> = sc.edges.iter().filter(|(_, c, _)| opened_in(&profile, c)).collect();
+        if matches!(base.flat_out, Outcome::Panic(_)) {
+            cx.stats.exclude("pasted text panics in isolation (a C16 matter)");
+        }
+        if !base.flat.undocumented.is_empty() {
+            cx.stats.count("scenarios_with_an_include_outside_documented_places", 1);
+        }
+        // ---- probes -------------------------------------------------------------------------
+        for k in ["w", "a", "p", "P", "c", "i", "I", "i^", "I^", "c2"] {
+            cx.stats.probe(&format!("location_kind_{}_opened", k), opened.iter().any(|e| e.2 == k));
+        }
+        let depth = |c: &str| -> usize {
+            let mut d = 1;
+            let mut cur = c.to_string();
+            while let Some((p, _, _)) = sc.edges.iter().find(|(_, ch, _)| *ch == cur) {
+                if *p == sc.main_file || d > 10 {
+                    break;
+                }
+                d += 1;
+                cur = p.clone();
+            }
+            d
+        };
+        cx.stats.probe("nested_depth_3_or_more_opened", opened.iter().any(|e| depth(&e.1) >= 3));
+        cx.stats.probe("relative_includepath_in_a_nested_file_found_through_a_search_dir", opened.iter().any(|e| (e.2 == "i" || e.2 == "i^") && sc.edges.iter().any(|pe| pe.1 == e.0 && matches!(pe.2.as_str(), "c" | "i" | "I" | "i^" | "I^" | "P"))));
+        cx.stats.probe("exit_in_an_included_file_with_lines_after_it", opened.iter().any(|e| sc.files.get(&e.1).map(|t| t.lines().any(|l| l.trim() == ".exit")).unwrap_or(false)));
+        cx.stats.probe("device_inside_an_include", opened.iter().any(|e| sc.files.get(&e.1).map(|t| t.contains(".device ")).unwrap_or(false)));
+        cx.stats.probe("file_included_more_than_once", sc.edges.iter().filter(|e| e.2 == "c2").count() >= 2);
+        cx.stats.probe("cwd_deep_below_the_root", sc.cwd.contains('/'));
+        cx.stats.probe("cwd_is_the_main_files_directory", incmodel::dirname(&sc.main_file) == sc.cwd);
+        cx.stats.probe("include_inside_a_conditional_branch", {
+            let mut hit = false;
+            for t in sc.files.values() {
+                let mut d = 0i32;
+                for l in t.lines() {
+                    let x = l.trim();
+                    if x.starts_with(".if") || x.starts_with("#if") {
+                        d += 1;
+                    } else if x.starts_with(".endif") {
+                        d -= 1;
+                    } else if d > 0 && parse_include(l).is_some() {
+                        hit = true;
+                    }
+                }
+            }
+            hit
+        });
+        {
+            let mut c2p = false;
+            let mut p2c = false;
+            for e in &opened {
+                if let (Some(pt), Some(ct)) = (sc.files.get(&e.0), sc.files.get(&e.1)) {
+                    if defined_names(ct).intersection(&used_names(pt)).next().is_some() {
+                        c2p = true;
+                    }
+                    if defined_names(pt).intersection(&used_names(ct)).next().is_some() {
+                        p2c = true;
+                    }
+                }
+            }
+            cx.stats.probe("definition_crossing_child_to_parent", c2p);
+            cx.stats.probe("definition_crossing_parent_to_child", p2c);
+        }
+        cx.stats.probe("failing_program_in_a_tree", base.flat_out.fails() && !opened.is_empty());
+        cx.stats.distinct_states.insert(fnv(format!("{:?}|{:?}", sc.edges.iter().map(|e| e.2.clone()).collect::<Vec<_>>(), base.flat_out.fails()).as_bytes()));
+        if !opened.is_empty() {
+            cx.stats.distinct_nontrivial.insert(tree_hash(&sc, &[]));
+        }
+        if cx.stats.samples.len() < 2 && opened.len() >= 2 {
+            cx.stats.samples.push(json!({"scenario": sc, "tree_outcome": base.tree.outcome.short(), "pasted_outcome": base.flat_out.short(), "pasted_text": base.flat.text, "trace": profile.iter().map(event_line).collect::<Vec<_>>()}));
+        }
+        // ---- other worlds: one used directory taken out of its documented place ---------
+        // (the model knows the documented rules, so these are judged like any other world:
+        // found elsewhere and equal to the paste, or an error naming the include)
+        if g % 3 == 0 && !base.tree.outcome.fails() {
+            for e in opened.iter().take(4) {
+                let mut v = sc.clone();
+                let mut label = "";
+                match e.2.as_str() {
+                    "c" | "c2" => {
+                        v.paths.clear();
+                        label = "caller_dir";
+                    }
+                    "i" | "I" | "i^" | "I^" => {
+                        for t in v.files.values_mut() {
+                            *t = t.lines().map(|l| if l.trim_start().starts_with(".includepath") { "" } else { l }).collect::<Vec<_>>().join("\n") + "\n";
+                        }
+                        label = "includepath";
+                    }
+                    "w" => {
+                        v.cwd = "another_cwd".into();
+                        if !v.main.starts_with("$R") {
+                            v.main = rel_from("another_cwd", &v.main_file);
+                        }
+                        v.paths = v.paths.iter().map(|p| if p.starts_with("$R") { p.clone() } else { format!("$R/{}", incmodel::join_norm(&sc.cwd, p).unwrap_or_default()) }).collect();
+                        label = "cwd";
+                    }
+                    "p" | "P" => {
+                        if let Some(t) = v.files.remove(&e.1) {
+                            v.files.insert(format!("nowhere/{}", basename(&e.1)), t);
+                            label = "including_dir";
+                        }
+                    }
+                    _ => {}
+                }
+                if label.is_empty() {
+                    continue;
+                }
+                v.config = "moved".into();
+                if let Some(b2) = run_world(&mut cx, &v, seed, true) {
+                    cx.stats.count("worlds_with_a_directory_taken_out_of_place", 1);
+                    cx.stats.probe(&format!("location_{}_exercised_and_necessary", label), b2.tree.outcome.fails());
+                }
+            }
+        }
+        // ---- a world without one of the files ---------------------------------------------
+        let file_keys: Vec<String> = sc.files.keys().filter(|k| **k != sc.main_file || r.chance(1, 6)).cloned().collect();
+        if sc.config == "missing" && !file_keys.is_empty() {
+            let mut f = sc.clone();
+            let opened_keys: Vec<&String> = file_keys.iter().filter(|k| opened_in(&profile, k)).collect();
+            let m = if !opened_keys.is_empty() && r.chance(4, 5) { opened_keys[r.usize(opened_keys.len())].clone() } else { file_keys[r.usize(file_keys.len())].clone() };
+            let reached = opened_in(&profile, &m);
+            f.missing = Some(m);
+            if let Some(b2) = run_world(&mut cx, &f, seed, true) {
+                if reached {
+                    cx.stats.fired("missing");
+                    cx.stats.runs_with_fired_fault += 1;
+                    cx.stats.distinct_nontrivial.insert(tree_hash(&f, &["missing".to_string()]));
+                }
+                cx.stats.probe("missing_include_reached_and_reported", reached && b2.tree.outcome.fails());
+                digest ^= fnv(b2.tree.outcome.short().replace(&rs, "$R").as_bytes());
+            }
+        }
+        // ---- faulted configurations ---------------------------------------------------------
+        if let Err(e) = disk.materialise(&sc) {
+            cx.stats.harness_errors.push(e);
+            break;
+        }
+        let evs = faultable(&profile);
+        match sc.config.as_str() {
+            "nonutf8" if !sc.files.is_empty() => {
+                let keys: Vec<&String> = sc.files.keys().collect();
+                let k = keys[r.usize(keys.len())].clone();
+                let len = sc.files[&k].len().max(1);
+                let mut f = sc.clone();
+                f.nonutf8 = Some((k, r.usize(len)));
+                digest ^= run_faulted(&mut cx, &f, &base, seed, g);
+            }
+            "cap" => {
+                let mut f = sc.clone();
+                f.read_cap = [1usize, 3, 64][r.usize(3)];
+                digest ^= run_faulted(&mut cx, &f, &base, seed, g);
+            }
+            "enum" | "pair" if !evs.is_empty() => {
+                let mut f = sc.clone();
+                for _ in 0..(if sc.config == "pair" { 2 } else { 1 }) {
+                    let i = evs[r.usize(evs.len())];
+                    let opts = faults_for_event(&profile, i);
+                    if !opts.is_empty() {
+                        f.rules.extend(opts[r.usize(opts.len())].clone());
+                    }
+                }
+                digest ^= run_faulted(&mut cx, &f, &base, seed, g);
+            }
+            _ => {}
+        }
+        if cfg.tier == "thorough" && g % 5 == 0 && cfg.digest_only.is_none() {
+            // every call x every applicable fault kind, every file missing, every cap
+            for i in &evs {
+                for rules in faults_for_event(&profile, *i) {
+                    let mut f = sc.clone();
+                    f.rules = rules;
+                    f.config = "enum-all".into();
+                    run_faulted(&mut cx, &f, &base, seed, g);
+                }
+            }
+            for cap in [1usize, 3, 64] {
+                let mut f = sc.clone();
+                f.read_cap = cap;
+                f.config = "enum-all".into();
+                run_faulted(&mut cx, &f, &base, seed, g);
+            }
+            for k in sc.files.keys() {
+                let mut f = sc.clone();
+                f.missing = Some(k.clone());
+                f.config = "enum-all".into();
+                if run_world(&mut cx, &f, seed, true).is_some() && opened_in(&profile, k) {
+                    cx.stats.fired("missing");
+                }
+            }
+            cx.stats.count("scenarios_with_every_single_fault_enumerated", 1);
+        }
+        cx.stats.digests.insert(g, digest);
+        if cx.found >= cfg.max_violations {
+            break;
+        }
+        g += cfg.nworkers;
+    }
+    let _ = std::env::set_current_dir("/");
+    stats
+}
+
+pub fn replay(scv: &Value) -> Result<Option<Violation>, String> {
+    let sc: Scenario = serde_json::from_value(scv.clone()).map_err(|e| e.to_string())?;
+    let disk = Disk::new("inctree-w99")?;
+    let mut stats = Stats::default();
+    let mut got: Vec<Violation> = vec![];
+    {
+        let mut emit = |v: Violation| got.push(v);
+        let mut cx = Ctx { disk: &disk, stats: &mut stats, emit: &mut emit, found: 0 };
+        let base = run_world(&mut cx, &sc, 0, true);
+        let faulted = !sc.rules.is_empty() || sc.read_cap > 0 || sc.nonutf8.is_some();
+        if let (Some(base), true) = (base, faulted) {
+            disk.materialise(&sc)?;
+            run_faulted(&mut cx, &sc, &base, 0, 0);
+        }
+    }
+    let _ = std::env::set_current_dir("/");
+    if let Some(e) = stats.harness_errors.first() {
+        return Err(e.clone());
+    }
+    Ok(got.into_iter().next())
+}
+
+/// Structure-aware line deletion: single plain lines, and whole balanced blocks.
+fn deletions(text: &str) -> Vec<String> {
+    let lines: Vec<&str> = text.lines().collect();
+    let is_open = |t: &str| t.starts_with(".if") || t.starts_with("#if") || t.starts_with(".macro");
+    let is_close = |t: &str| t.starts_with(".endif") || t.starts_with("#endif") || t.starts_with(".endm");
+    let is_mid = |t: &str| t.starts_with(".else") || t.starts_with(".elif") || t.starts_with("#else") || t.starts_with("#elif");
+    let mut out = vec![];
+    let join = |ls: Vec<&str>| -> String { if ls.is_empty() { String::new() } else { ls.join("\n") + "\n" } };
+    let mut i = 0;
+    while i < lines.len() {
+        let t = lines[i].trim();
+        if is_open(t) {
+            // find the matching close
+            let mut d = 0;
+            let mut j = i;
+            while j < lines.len() {
+                let u = lines[j].trim();
+                if is_open(u) {
+                    d += 1;
+                } else if is_close(u) {
+                    d -= 1;
+                    if d == 0 {
+                        break;
+                    }
+                }
+                j += 1;
+            }
+            if j < lines.len() {
+                let mut l2 = lines.clone();
+                l2.drain(i..=j);
+                out.push(join(l2));
+            }
+        } else if !is_close(t) && !is_mid(t) {
+            let mut l2 = lines.clone();
+            l2.remove(i);
+            out.push(join(l2));
+        }
+        i += 1;
+    }
+    out
+}
+
+pub fn shrink(scv: &Value) -> Vec<Value> {
+    let sc: Scenario = match serde_json::from_value(scv.clone()) {
+        Ok(s) => s,
+        Err(_) => return vec![],
+    };
+    let mut out = vec![];
+    let mut push = |s: Scenario| out.push(serde_json::to_value(s).unwrap());
+    if !sc.rules.is_empty() {
+        let mut s = sc.clone();
+        s.rules.clear();
+        push(s);
+        for i in 0..sc.rules.len() {
+            let mut s = sc.clone();
+            s.rules.remove(i);
+            push(s);
+        }
+    }
+    if sc.read_cap > 0 {
+        let mut s = sc.clone();
+        s.read_cap = 0;
+        push(s);
+    }
+    if sc.nonutf8.is_some() {
+        let mut s = sc.clone();
+        s.nonutf8 = None;
+        push(s);
+    }
+    // files that nothing includes (any more)
+    let included: BTreeSet<String> = sc.files.values().flat_map(|t| t.lines().filter_map(parse_include).map(|n| basename(&n).to_string()).collect::<Vec<_>>()).collect();
+    for k in sc.files.keys() {
+        if *k != sc.main_file && !included.contains(basename(k)) {
+            let mut s = sc.clone();
+            s.files.remove(k);
+            s.edges.retain(|e| e.0 != *k && e.1 != *k);
+            if s.missing.as_deref() == Some(k.as_str()) {
+                continue;
+            }
+            push(s);
+        }
+    }
+    // inline a child into its parent (pasting is what including means): fewer files
+    for (k, t) in &sc.files {
+        for (i, l) in t.lines().enumerate() {
+            if let Some(n) = parse_include(l) {
+                if let Some((ck, ct)) = sc.files.iter().find(|(ck, _)| basename(ck) == basename(&n)) {
+                    if ct.lines().any(|x| x.trim() == ".exit") || sc.missing.as_deref() == Some(ck.as_str()) || ck == k {
+                        continue;
+                    }
+                    let mut lines: Vec<String> = t.lines().map(|x| x.to_string()).collect();
+                    lines.splice(i..=i, ct.lines().map(|x| x.to_string()));
+                    let mut s = sc.clone();
+                    s.files.insert(k.clone(), lines.join("\n") + "\n");
+                    push(s);
+                }
+            }
+        }
+    }
+    for (k, t) in &sc.files {
+        for cand in deletions(t).into_iter().take(80) {
+            let mut s = sc.clone();
+            s.files.insert(k.clone(), cand);
+            push(s);
+        }
+    }
+    if sc.paths.len() > 0 {
+        for i in 0..sc.paths.len() {
+            let mut s = sc.clone();
+            s.paths.remove(i);
+            push(s);
+        }
+    }
+    if sc.hash_seed != 0 {
+        let mut s = sc.clone();
+        s.hash_seed = 0;
+        push(s);
+    }
+    if sc.config != "min" {
+        let mut s = sc.clone();
+        s.config = "min".into();
+        s.intent = String::new();
+        push(s);
+    }
+    out
+}
